@@ -16,8 +16,24 @@ LEVEL_NOTE = ("Partial: the 'no edge names an undeclared node' clause is false o
               "was repaired by a fix: commit. Trusted: Lean kernel, standard axioms; the mirror lean/Anytree/Model/Export.lean; "
               "id() modelled by an injective key; str()/%-formatting of names is CPython's; default identifiers are compared up "
               "to a renaming (distinctness and stability are what the property asks).")
-THEOREMS = []
-NOT_COVERED = []
+THEOREMS = [
+    ("Anytree.Props.C12.dot_lines_full", "full"),
+    ("Anytree.Props.C12.edge_parents_declared", "full"),
+    ("Anytree.Props.C12.edge_ends_declared", "full"),
+    ("Anytree.Props.C12.no_admitted_link_missing", "full"),
+    ("Anytree.Props.C12.unesc_esc", "full"),
+    ("Anytree.Props.C12.esc_injective", "full"),
+    ("Anytree.Props.C12.get_wf", "full"),
+    ("Anytree.Props.C12.get_stable", "full"),
+    ("Anytree.Props.C12.get_lookup", "full"),
+    ("Anytree.Props.C12.lookup_injective", "full"),
+    ("Anytree.Props.C12.dot_unique_eq_pure", "full"),
+    ("Anytree.Props.C12.edgeMax_legacy_eq", "full"),
+    ("Anytree.Props.C12.dot_lines_pure", "partial"),
+    ("Anytree.Props.C12.edgePairs_eq_filter", "partial"),
+    ("Anytree.Props.C12.edgeMax_legacy_zero", "witness"),
+]
+NOT_COVERED = ["the full statement (no edge names an undeclared node) is false of the unchanged code when a child satisfies stop: dot_lines_pure proves the emitted text is Spec.dotLinesD3, edgePairs_eq_filter proves the surplus over the demanded edge set is exactly the edges to stopped children (finding D3); dot_lines_full proves the demanded text when stop is unused"]
 PREDICATE_SPEC = True
 KINDS = ["dot", "unique", "rtg"]
 RULE = ("all shapes up to 3/4 nodes x every stop subset x every filtered-out subset x maxlevel None,0..height+2 (exhaustive), every "
